@@ -13,6 +13,7 @@ For all user lambdas `u`, default values, contents `m`, keys, values, operation 
   `else_visit_offered_value`, `reduce_is_fold`, `reduce_perm`, `erase_removes_all`, `multimap_adds`
 * the `map` invariant: `map_invariant`, `map_invariant_run`, `nodupKeys_count_le_one`
 * queries: `queries_agree_*`
+* copy construction: `copy_same_default`, `copy_independent`
 -/
 namespace YgmVerif.MapOps
 
@@ -572,6 +573,43 @@ theorem queries_agree_clear_swap (a b : Assoc K V × V) (m : Assoc K V) (k : K) 
     values (clear m) k = [] ∧ size (clear m) = 0
     ∧ (swap a b).1 = b ∧ (swap a b).2 = a ∧ swap (swap a b).1 (swap a b).2 = (a, b) :=
   ⟨rfl, rfl, rfl, rfl, rfl⟩
+
+/-! ## copy construction -/
+
+/-- **a copy has the same contents and the same default value**: in particular `async_visit` of a
+key that is absent in the copy creates the ORIGINAL's default value and calls the visitor once
+with it -/
+theorem copy_same_default (u : User K V A) (a : Assoc K V × V) (k : K) (vis : Nat) (arg : A) :
+    (copy a).2 = a.2 ∧ (∀ k', values (copy a).1 k' = values a.1 k')
+    ∧ (values a.1 k = [] →
+        (apply u (copy a).2 (copy a).1 (.visit k vis arg)).2.2 = [Cb.single vis k a.2 arg]
+        ∧ values (apply u (copy a).2 (copy a).1 (.visit k vis arg)).1 k = [(u.visitor vis k a.2 arg).1]) := by
+  refine ⟨rfl, fun _ => rfl, fun habs => ?_⟩
+  obtain ⟨h1, h2, _⟩ := visit_creates_default_and_calls_once u a.2 a.1 k vis arg habs
+  exact ⟨h1, h2⟩
+
+/-- **operations on the copy do not affect the original** (and vice versa): after any sequence of
+operations addressed to the copy, the original still has the contents and default it had when the
+copy was made; the copy is the fold of those operations over the copied contents -/
+theorem copy_independent (u : User K V A) (a : Assoc K V × V) (ops : List (Op K V A)) :
+    (ops.foldl (fun p op => applyAt u p true op) (a, copy a)).1 = a
+    ∧ (ops.foldl (fun p op => applyAt u p true op) (a, copy a)).2
+        = ((Dist.run (container u a.2) a.1 ops).state, a.2)
+    ∧ (ops.foldl (fun p op => applyAt u p false op) (a, copy a)).2 = copy a := by
+  have key : ∀ (x y : Assoc K V × V),
+      (ops.foldl (fun p op => applyAt u p true op) (x, y)).1 = x
+      ∧ (ops.foldl (fun p op => applyAt u p true op) (x, y)).2
+          = ((Dist.run (container u y.2) y.1 ops).state, y.2)
+      ∧ (ops.foldl (fun p op => applyAt u p false op) (x, y)).2 = y := by
+    induction ops with
+    | nil => intro x y; exact ⟨rfl, rfl, rfl⟩
+    | cons op ops ih =>
+      intro x y
+      simp only [List.foldl_cons, applyAt, if_true, Bool.false_eq_true, if_false, Dist.run]
+      obtain ⟨h1, h2, _⟩ := ih x ((apply u y.2 y.1 op).1, y.2)
+      obtain ⟨_, _, h3⟩ := ih ((apply u x.2 x.1 op).1, x.2) y
+      exact ⟨h1, h2, h3⟩
+  exact key a (copy a)
 
 /-! ## non-vacuity: the hypotheses are met by concrete states, and the operations really differ -/
 
